@@ -125,7 +125,7 @@ def State.eofFail (st : State) : Side → Bool
 
 /-- `ConnectionHandler.close_connection`; `eofFails`: `write_eof()` raises OSError, the connection is presumed dead -/
 def applyClose (c : Conn) (half : Bool) (eofFails : Bool := false) : Conn :=
-  if half then (if eofFails then .shut else { c with canWrite := false }) else .shut
+  if half then (if eofFails && c.canWrite then .shut else { c with canWrite := false }) else .shut
 
 /-- yield a command; `server.py` executes it before the generator is advanced -/
 def emit (st : State) (o : Output) : State :=
